@@ -484,7 +484,39 @@ def rule_schedule(ctx):
            line=(a[0].lineno if a else cz.node.lineno))
 
 
+def rule_resample(ctx):
+    """R9: time resampling interpolates each per-point field against the
+    trajectory's own flight-time axis (np.interp(x=new times, xp=own times,
+    fp=field view)), copies per-trajectory fields, and sizes the result by the
+    new time vector."""
+    prog = ctx.prog
+    fi = prog.func(TRAJ, 'Trajectory.interpolate_time')
+    ot = single_def_value(fi.node, 'orig_time')
+    ok = ot is not None and norm(ot) == "self._data['flight_time'][:self._size]"
+    ctx.ob('C02-R9', fi, f'abscissa = {norm(ot) if ot is not None else "?"}', ok,
+           'the stored flight times' if ok else 'resampling abscissa is not the view of the flight_time field')
+    calls = [c for c in calls_in(fi.node) if call_name(c) in ('np.interp', 'numpy.interp')]
+    ctx.floor('C02-R9', len(calls), 2, 'np.interp calls in interpolate_time')
+    for c in calls:
+        a = [norm(x) for x in c.args[:3]]
+        ok = len(a) == 3 and a[0] == fi.params[1] and a[1] == 'orig_time' and a[2].startswith('self._data[name]')
+        ctx.ob('C02-R9', fi, f'np.interp({", ".join(a)})', ok, 'x = new times, xp = own times, fp = the field' if ok else
+               'interpolation arguments are permuted or refer to another array', line=c.lineno)
+        edge = {k.arg: norm(k.value) for k in c.keywords}
+        ok = edge == {'left': 'np.nan', 'right': 'np.nan'}
+        ctx.ob('C02-R9', fi, f'outside the flown interval: {edge}', ok, 'NaN, not an extrapolated value' if ok else
+               'times outside the trajectory are extrapolated/clamped', line=c.lineno, nontrivial=False)
+    nt = single_def_value(fi.node, 'new_traj')
+    ok = nt is not None and norm(nt) == f'Trajectory(len({fi.params[1]}), fieldsets=list(self._fieldsets))'
+    ctx.ob('C02-R9', fi, 'result sized by the new time vector, same field sets', ok, norm(nt) if ok else 'result container changed')
+    cp = [st for t, st, how in stores_to(fi.node) if norm(t) == 'new_traj._data[name]' and isinstance(getattr(st, 'value', None), ast.Call)
+          and call_name(st.value) == 'deepcopy']
+    ok = len(cp) == 1 and norm(cp[0].value) == 'deepcopy(self._data[name])'
+    ctx.ob('C02-R9', fi, 'per-trajectory fields copied unchanged', ok, 'deepcopy' if ok else 'per-trajectory fields are not carried over', nontrivial=False)
+
+
 def run(ctx):
+    rule_resample(ctx)
     rule_buffers(ctx)
     rule_bookkeeping(ctx)
     rule_schedule(ctx)
